@@ -172,7 +172,7 @@ package geom
 
 //@ func (p Polygon) Points$1
 //@   prop C04
-//@   mode fp
+//@   mode ufloat
 //@   requires [wf] 0 <= *j && *j <= len(*p) && 0 <= *i && (*j < len(*p) ==> *i <= len((*p)[*j]))
 //@   requires [more] sumLen(*p, *j) + *i < sumLen(*p, len(*p))
 //@   ensures [next] biteq(result, flatAt(*p, len(*p), old(sumLen(*p, *j) + *i)))
@@ -184,3 +184,101 @@ package geom
 //@     invariant [pos] 0 <= *j && *j < len(*p) && 0 <= *i && *i <= len((*p)[*j]) && sumLen(*p, *j) + *i == old(sumLen(*p, *j) + *i)
 //@     using sumLen_mono(*p, *j+1, len(*p))
 //@     decreases len(*p) - *j
+
+//@ func (ml MultiLineString) Points$1
+//@   prop C04
+//@   mode ufloat
+//@   requires [wf] 0 <= *j && *j <= len(*ml) && 0 <= *i && (*j < len(*ml) ==> *i <= len((*ml)[*j]))
+//@   requires [more] sumLen(*ml, *j) + *i < sumLen(*ml, len(*ml))
+//@   ensures [next] biteq(result, flatAt(*ml, len(*ml), old(sumLen(*ml, *j) + *i)))
+//@   using flatAt_stable(*ml, *j+1, len(*ml), old(sumLen(*ml, *j) + *i))
+//@   ensures [adv] sumLen(*ml, *j) + *i == old(sumLen(*ml, *j) + *i) + 1
+//@   ensures [wf] 0 <= *j && *j < len(*ml) && 0 <= *i && *i <= len((*ml)[*j])
+//@   modifies *i, *j
+//@   loop 1 `for i == len(ml[j])`
+//@     invariant [pos] 0 <= *j && *j < len(*ml) && 0 <= *i && *i <= len((*ml)[*j]) && sumLen(*ml, *j) + *i == old(sumLen(*ml, *j) + *i)
+//@     using sumLen_mono(*ml, *j+1, len(*ml))
+//@     decreases len(*ml) - *j
+
+//@ func (mp MultiPoint) Points$1
+//@   prop C04
+//@   mode ufloat
+//@   requires [more] 0 <= *i && *i < len(*mp)
+//@   ensures [next] biteq(result, (*mp)[old(*i)]) && *i == old(*i) + 1
+//@   modifies *i
+
+//@ func (l LineString) Points$1
+//@   prop C04
+//@   mode ufloat
+//@   requires [more] 0 <= *i && *i < len(*l)
+//@   ensures [next] biteq(result, (*l)[old(*i)]) && *i == old(*i) + 1
+//@   modifies *i
+
+//@ func (p Point) Points$1
+//@   prop C04
+//@   mode ufloat
+//@   ensures [next] biteq(result, *p)
+//@   modifies nothing
+
+//@ func (b *Bounds) Points$1
+//@   prop C04
+//@   mode ufloat
+//@   requires [nonnil] *b != nil
+//@   requires [more] 0 <= *i && *i < 4
+//@   ensures [adv] *i == old(*i) + 1
+//@   ensures [corner0] old(*i) == 0 ==> biteq(result, (*b).Min)
+//@   ensures [corner1] old(*i) == 1 ==> biteq(result, Point((*b).Max.X, (*b).Min.Y))
+//@   ensures [corner2] old(*i) == 2 ==> biteq(result, (*b).Max)
+//@   ensures [corner3] old(*i) == 3 ==> biteq(result, Point((*b).Min.X, (*b).Max.Y))
+//@   modifies *i
+
+//@ spec flatAtP(mp []Polygon, n int, c int) Point decreases n = n <= 0 ? Point(0, 0) : (c >= sumLenP(mp, n-1) ? flatAt(mp[n-1], len(mp[n-1]), c - sumLenP(mp, n-1)) : flatAtP(mp, n-1, c))
+//@ lemma sumLen_nonneg(pp []Path, n int)
+//@   prop C04
+//@   requires 0 <= n && n <= len(pp)
+//@   ensures 0 <= sumLen(pp, n)
+//@   induction n
+//@ lemma sumLenP_mono(mp []Polygon, m int, n int)
+//@   prop C04
+//@   requires 0 <= m && m <= n && n <= len(mp)
+//@   ensures sumLenP(mp, m) <= sumLenP(mp, n)
+//@   induction n
+//@   using sumLen_nonneg(mp[n-1], len(mp[n-1]))
+//@ lemma flatAtP_stable(mp []Polygon, m int, n int, c int)
+//@   prop C04
+//@   requires 0 <= m && m <= n && n <= len(mp) && c < sumLenP(mp, m)
+//@   ensures biteq(flatAtP(mp, n, c), flatAtP(mp, m, c))
+//@   induction n
+//@   using sumLenP_mono(mp, m, n-1)
+
+//@ func (mp MultiPolygon) Len
+//@   prop C04
+//@   ensures [len] result == sumLenP(mp, len(mp))
+//@   loop 1 `for _, p := range mp`
+//@     invariant [sum] 0 <= #1 && #1 <= len(mp) && i == sumLenP(mp, #1)
+
+//@ func (mp MultiPolygon) Points$1
+//@   prop C04
+//@   mode ufloat
+//@   requires [wf] 0 <= *k && *k <= len(*mp) && 0 <= *j && 0 <= *i && (*k < len(*mp) ==> *j <= len((*mp)[*k]) && (*j < len((*mp)[*k]) ==> *i <= len((*mp)[*k][*j])) && (*j == len((*mp)[*k]) ==> *i == 0))
+//@   requires [more] *k < len(*mp) && sumLenP(*mp, *k) + sumLen((*mp)[*k], *j) + *i < sumLenP(*mp, len(*mp))
+//@   ensures [h0] 0 <= sumLen((*mp)[*k], *j - 0) && old(sumLenP(*mp, *k) + sumLen((*mp)[*k], *j) + *i) == sumLenP(*mp, *k) + sumLen((*mp)[*k], *j) + *i - 1
+//@   using sumLen_nonneg((*mp)[*k], *j)
+//@   ensures [h1] sumLen((*mp)[*k], *j) + *i - 1 < sumLen((*mp)[*k], *j + 1) && sumLen((*mp)[*k], *j + 1) <= sumLen((*mp)[*k], len((*mp)[*k]))
+//@   using sumLen_mono((*mp)[*k], *j+1, len((*mp)[*k]))
+//@   ensures [h2] old(sumLenP(*mp, *k) + sumLen((*mp)[*k], *j) + *i) < sumLenP(*mp, *k + 1)
+//@   ensures [h3] biteq(flatAtP(*mp, len(*mp), old(sumLenP(*mp, *k) + sumLen((*mp)[*k], *j) + *i)), flatAtP(*mp, *k + 1, old(sumLenP(*mp, *k) + sumLen((*mp)[*k], *j) + *i)))
+//@   using flatAtP_stable(*mp, *k+1, len(*mp), old(sumLenP(*mp, *k) + sumLen((*mp)[*k], *j) + *i))
+//@   ensures [h4] biteq(flatAtP(*mp, *k + 1, old(sumLenP(*mp, *k) + sumLen((*mp)[*k], *j) + *i)), flatAt((*mp)[*k], len((*mp)[*k]), sumLen((*mp)[*k], *j) + *i - 1))
+//@   ensures [h5] biteq(flatAt((*mp)[*k], len((*mp)[*k]), sumLen((*mp)[*k], *j) + *i - 1), flatAt((*mp)[*k], *j + 1, sumLen((*mp)[*k], *j) + *i - 1))
+//@   using flatAt_stable((*mp)[*k], *j+1, len((*mp)[*k]), sumLen((*mp)[*k], *j) + *i - 1)
+//@   ensures [h6] biteq(flatAt((*mp)[*k], *j + 1, sumLen((*mp)[*k], *j) + *i - 1), (*mp)[*k][*j][*i - 1])
+//@   ensures [next] biteq(result, flatAtP(*mp, len(*mp), old(sumLenP(*mp, *k) + sumLen((*mp)[*k], *j) + *i)))
+//@   ensures [adv] sumLenP(*mp, *k) + sumLen((*mp)[*k], *j) + *i == old(sumLenP(*mp, *k) + sumLen((*mp)[*k], *j) + *i) + 1
+//@   ensures [wf] 0 <= *k && *k < len(*mp) && 0 <= *j && *j < len((*mp)[*k]) && 0 <= *i && *i <= len((*mp)[*k][*j])
+//@   modifies *i, *j, *k
+//@   loop 1 `for j == len(mp[k]) || i == len(mp[k][j])`
+//@     invariant [pos] 0 <= *k && *k < len(*mp) && 0 <= *j && *j <= len((*mp)[*k]) && 0 <= *i && (*j < len((*mp)[*k]) ==> *i <= len((*mp)[*k][*j])) && (*j == len((*mp)[*k]) ==> *i == 0)
+//@     invariant [same] sumLenP(*mp, *k) + sumLen((*mp)[*k], *j) + *i == old(sumLenP(*mp, *k) + sumLen((*mp)[*k], *j) + *i)
+//@     using sumLenP_mono(*mp, *k+1, len(*mp)), sumLen_mono((*mp)[*k], *j+1, len((*mp)[*k]))
+//@     decreases len(*mp) - *k, len((*mp)[*k]) - *j
